@@ -1,8 +1,12 @@
 import StraxModel.Lemmas.Pulse
 /-
   C18 — hit finding and data reduction keep exactly the samples they should.
-  Model: `Model/Pulse.lean` (namespace `Strax.Pulse`); lemmas: `Lemmas/Pulse*.lean`.
-  All theorems are over arbitrary record arrays, thresholds, hit lists and extensions (no size bound).
+  Model: `Model/Pulse.lean` (namespace `Strax.Pulse`); lemmas: `Lemmas/Pulse{Hits,Cut,Links,Baseline,Shift}.lean`, umbrella
+  `Lemmas/Pulse.lean`.  Every theorem is over arbitrary record arrays, thresholds, hit lists and extensions (no size bound).
+  Naming: plain names hold for all inputs or on the property's domain `wellFormedPulses` (stated in the docstring);
+  `…_partial` needs a side condition and says what is missing; `…_counterexample` are `decide`d witnesses that the full
+  statement fails for the code as it is; `…_as_coded` states what the code computes where that differs from the property's
+  reading; definitions ending in `_witness` / `_example` are the concrete inputs used by those and by the non-vacuity examples.
 -/
 namespace Strax.C18
 open Strax Strax.Pulse
@@ -36,10 +40,10 @@ theorem find_hits_total_scalar (records : List Record) (qa qh : Q)
     ∃ hits, findHits records (.scalar qa) (.scalar qh) = .ok hits :=
   findHits_total_scalar records qa qh hall
 
-/-- **Hit fields, all hits.**  Every returned hit lies inside its record (`left < right ≤ length`) and carries
-`time = record.time + left·dt`, `length = right − left`, the record's `dt` and `channel`, the applied threshold,
-`area = Σ samples[left:right] + (right − left)·(baseline mod 1)` and
-`height = max(0, largest sample of the hit) + (baseline mod 1)` (the accumulator starts at 0). -/
+/-- **Hit fields, all hits, all inputs.**  Every returned hit lies inside its record (`left < right ≤ length`) and carries
+`time = record.time + left·dt`, `length = right − left`, the record's `dt` and `channel`, the applied threshold and
+`area = Σ samples[left:right] + (right − left)·(baseline mod 1)`.  (Height and peak time: `hit_height_maxtime_partial`
+with `hit_height_maxtime_counterexample` for the property's reading, `hit_height_as_coded` for what the code computes.) -/
 theorem hit_fields (records : List Record) (amp hon : ThrArg) (hits : List Hit)
     (e : findHits records amp hon = .ok hits) (x : Hit) (hx : x ∈ hits) :
     ∃ rec thr, records[x.recordI]? = some rec ∧ thresholdOf records amp hon rec = .ok thr ∧
@@ -47,9 +51,7 @@ theorem hit_fields (records : List Record) (amp hon : ThrArg) (hits : List Hit)
       x.time = rec.time + (x.left : Int) * rec.dt ∧ x.length = x.right - x.left ∧
       x.dt = rec.dt ∧ x.channel = rec.channel ∧ x.threshold = thr ∧
       x.area = ⟨(slice rec.samples x.left x.right).sum * rec.baseline.den
-                + ((x.right - x.left : Nat) : Int) * rec.baseline.fracNum, rec.baseline.den⟩ ∧
-      x.height = ⟨maxFrom 0 (slice rec.samples x.left x.right) * rec.baseline.den + rec.baseline.fracNum,
-                  rec.baseline.den⟩ := by
+                + ((x.right - x.left : Nat) : Int) * rec.baseline.fracNum, rec.baseline.den⟩ := by
   obtain ⟨rec, thr, m0, hrec, hthr, hlen, hlt, hmk⟩ := findHits_fields e x hx
   obtain ⟨rec', thr', hrec', hthr', hrun⟩ := ((findHits_intervals e).1 x.recordI x.left x.right).1 ⟨x, hx, rfl, rfl, rfl⟩
   rw [hrec] at hrec'; simp only [Option.some.injEq] at hrec'; subst hrec'
@@ -57,8 +59,21 @@ theorem hit_fields (records : List Record) (amp hon : ThrArg) (hits : List Hit)
   have hr : x.right ≤ rec.length := by
     have := hrun.2.1
     rwa [satFlags_length thr rec hlen] at this
-  refine ⟨rec, thr, hrec, hthr, hlt, hr, ?_, ?_, ?_, ?_, ?_, ?_, ?_⟩
-  all_goals (rw [hmk]; simp [mkHit, trackMT_spec])
+  refine ⟨rec, thr, hrec, hthr, hlt, hr, ?_, ?_, ?_, ?_, ?_, ?_⟩
+  all_goals (rw [hmk]; simp [mkHit])
+
+/-- **Height as the code computes it (all inputs) — NOT the property's reading of "correct height".**  The accumulator
+starts at 0, so `height = max(0, largest sample of the hit) + (baseline mod 1)`; this equals the property's
+`largest sample + (baseline mod 1)` exactly when the hit has a positive sample (`hit_height_maxtime_partial`), and differs
+for hits whose largest sample is negative (open finding `C18-nonpositive-hit-height-maxtime`). -/
+theorem hit_height_as_coded (records : List Record) (amp hon : ThrArg) (hits : List Hit)
+    (e : findHits records amp hon = .ok hits) (x : Hit) (hx : x ∈ hits) :
+    ∃ rec, records[x.recordI]? = some rec ∧
+      x.height = ⟨maxFrom 0 (slice rec.samples x.left x.right) * rec.baseline.den + rec.baseline.fracNum,
+                  rec.baseline.den⟩ := by
+  obtain ⟨rec, thr, m0, hrec, -, -, -, hmk⟩ := findHits_fields e x hx
+  refine ⟨rec, hrec, ?_⟩
+  rw [hmk]; simp [mkHit, trackMT_spec]
 
 /-- **Height and peak time (partial: positive threshold).**  When the applied threshold is positive, the integer part
 of `height` is the largest sample of the hit and `max_time` is the time of its first occurrence.
@@ -117,7 +132,7 @@ theorem hit_height_maxtime_partial (records : List Record) (amp hon : ThrArg) (h
     simp only [this, ↓reduceIte, s, H]
 
 /-- the witness of the open finding: threshold 0, a hit `[0, 4)` with peak in sample 1, then an all-zero record -/
-def staleWitness : List Record :=
+def stale_maxtime_witness : List Record :=
   [{ time := 10, length := 4, dt := 2, channel := 0, recordI := 0, pulseLength := 4, area := 0, reductionLevel := 0,
      baseline := ⟨0, 1⟩, baselineRms := ⟨0, 1⟩, ampBitShift := 0, data := [0, 3, 0, 0] },
    { time := 30, length := 4, dt := 2, channel := 0, recordI := 0, pulseLength := 4, area := 0, reductionLevel := 0,
@@ -126,7 +141,7 @@ def staleWitness : List Record :=
 /-- **The full peak-time statement is false for the code as it is**: with threshold 0 the second hit (all samples 0,
 record starting at t = 30) is reported with `max_time = 12`, the peak time of the *previous* hit. -/
 theorem hit_height_maxtime_counterexample :
-    (match findHits staleWitness (.scalar ⟨0, 1⟩) (.scalar ⟨0, 1⟩) with
+    (match findHits stale_maxtime_witness (.scalar ⟨0, 1⟩) (.scalar ⟨0, 1⟩) with
      | .ok hs => hs.map (fun h => (h.recordI, h.left, h.right, h.time, h.maxTime))
      | .error _ => []) = [(0, 0, 4, 10, 12), (1, 0, 4, 30, 12)] := by
   decide
@@ -218,7 +233,7 @@ theorem links_spec (rs : List Record) (hwf : wellFormedPulses rs = true) :
     exact ⟨(p2 i hi).2, (n2 i hi).2⟩
 
 /-- a lone continuing fragment at time 0 -/
-def orphanWitness : List Record :=
+def orphan_at_zero_witness : List Record :=
   [{ time := 0, length := 4, dt := 1, channel := 0, recordI := 1, pulseLength := 8, area := 0, reductionLevel := 0,
      baseline := ⟨0, 1⟩, baselineRms := ⟨0, 1⟩, ampBitShift := 0, data := [0, 3, 0, 0] }]
 
@@ -232,14 +247,19 @@ some hit `h` *covers* it — `m` is `h`'s record, `j < length` and `left − le 
 and `left − le ≤ j − samples_per_record`; or `m = next[h.record_i]` and `j + samples_per_record < right + re` — and is 0
 otherwise. -/
 theorem reduction_keeps_iff (records : List Record) (hits : List HitRef) (le re : Int) (out : List Record)
-    (hne : records ≠ []) (e : cutOutsideHits records hits le re = .ok out) :
+    (e : cutOutsideHits records hits le re = .ok out) :
     ∃ prev next, recordLinks records = .ok (prev, next) ∧ out.length = records.length ∧
       ∀ m r, records[m]? = some r →
         ∃ d, out[m]? = some { r with data := d, reductionLevel := hitsOnly } ∧ d.length = r.data.length ∧
           ∀ j, j < r.data.length →
             ((∃ h ∈ hits, Covers records (samplesPerRecord records) prev next le re h m j) → d[j]? = r.data[j]?) ∧
-            ((¬ ∃ h ∈ hits, Covers records (samplesPerRecord records) prev next le re h m j) → d[j]? = some 0) :=
-  cutOutsideHits_spec hne e
+            ((¬ ∃ h ∈ hits, Covers records (samplesPerRecord records) prev next le re h m j) → d[j]? = some 0) := by
+  cases records with
+  | nil =>
+    simp only [cutOutsideHits, List.isEmpty_nil, ↓reduceIte, Except.ok.injEq] at e
+    subst e
+    exact ⟨[], [], rfl, rfl, fun m r hr => by simp at hr⟩
+  | cons r0 rs => exact cutOutsideHits_spec (by simp) e
 
 /-- **`cut_outside_hits` returns on every valid input**: non-negative channels and extensions, hits that point into the
 array with `left ≤ right`. -/
@@ -280,14 +300,14 @@ theorem reduction_keeps_iff_single (r : Record) (hits : List HitRef) (le re : In
     exact this
 
 /-- a lone continuing fragment at time 0 with a hit in its last sample -/
-def cutWitness : List Record :=
+def orphan_cut_witness : List Record :=
   [{ time := 0, length := 4, dt := 1, channel := 0, recordI := 1, pulseLength := 8, area := 0, reductionLevel := 0,
      baseline := ⟨0, 1⟩, baselineRms := ⟨0, 1⟩, ampBitShift := 0, data := [5, 6, 0, 7] }]
 
 /-- **Without the side condition the single-record statement is false**: the hit `[3, 4)` with `re = 2` also keeps
 samples 0 and 1 of the *same* record, through the self-link of `links_next_counterexample`. -/
 theorem reduction_single_counterexample :
-    (match cutOutsideHits cutWitness [⟨0, 3, 4⟩] 0 2 with
+    (match cutOutsideHits orphan_cut_witness [⟨0, 3, 4⟩] 0 2 with
      | .ok out => out.map (·.data)
      | .error _ => []) = [[5, 6, 0, 7]] := by decide
 
@@ -297,7 +317,7 @@ Sample `j` of record `m` survives iff there is a hit `h` (in record `k = h.recor
 `left − le ≤ j − samples_per_record`; or `m` is the next fragment of `k` and `j + samples_per_record < right + re`.
 Missing for the full statement: arrays with a continuing fragment at time 0 that opens its channel. -/
 theorem reduction_keeps_iff_fragments_partial (records : List Record) (hits : List HitRef) (le re : Int) (out : List Record)
-    (hne : records ≠ []) (hz : noOrphanAtZero records = true) (e : cutOutsideHits records hits le re = .ok out) :
+    (hz : noOrphanAtZero records = true) (e : cutOutsideHits records hits le re = .ok out) :
     ∀ m r, records[m]? = some r →
       ∃ d, out[m]? = some { r with data := d, reductionLevel := hitsOnly } ∧
         ∀ j : Nat, j < r.data.length →
@@ -306,8 +326,11 @@ theorem reduction_keeps_iff_fragments_partial (records : List Record) (hits : Li
             (m = h.recordI ∧ j < r.length ∧ (h.left : Int) - le ≤ j ∧ (j : Int) < h.right + re)
             ∨ (IsPrevFragment records spr m h.recordI ∧ (h.left : Int) - le ≤ (j : Int) - spr ∧ j < spr)
             ∨ (IsPrevFragment records spr h.recordI m ∧ (j : Int) + spr < h.right + re ∧ j < spr)
-          (keep → d[j]? = r.data[j]?) ∧ (¬ keep → d[j]? = some 0) :=
-  cut_fragments_spec _ (fun _ _ => Iff.rfl) hne (fun i b hb hri ht => noOrphanAtZero_spec hz i b hb hri ht) e
+          (keep → d[j]? = r.data[j]?) ∧ (¬ keep → d[j]? = some 0) := by
+  cases records with
+  | nil => intro m r hr; simp at hr
+  | cons r0 rs =>
+    exact cut_fragments_spec _ (fun _ _ => Iff.rfl) (by simp) (fun i b hb hri ht => noOrphanAtZero_spec hz i b hb hri ht) e
 
 /-- **Reduction on well-formed pulses (full on the property's domain).**  For `wellFormedPulses records` and any hit
 list / extensions on which `cut_outside_hits` returns: sample `j` of record `m` survives iff some hit `h` (of record `k`)
@@ -315,7 +338,7 @@ has `m = k`, `j < length`, `left − le ≤ j < right + re`; or `m` holds the fr
 `left − le ≤ j − samples_per_record`; or `m` holds the fragment after `k` and `j + samples_per_record < right + re`.
 Every other sample is 0; the other fields are untouched (`reduction_keeps_iff`). -/
 theorem reduction_keeps_iff_pulses (records : List Record) (hits : List HitRef) (le re : Int) (out : List Record)
-    (hne : records ≠ []) (hwf : wellFormedPulses records = true) (e : cutOutsideHits records hits le re = .ok out) :
+    (hwf : wellFormedPulses records = true) (e : cutOutsideHits records hits le re = .ok out) :
     ∀ m r, records[m]? = some r →
       ∃ d, out[m]? = some { r with data := d, reductionLevel := hitsOnly } ∧
         ∀ j : Nat, j < r.data.length →
@@ -324,8 +347,10 @@ theorem reduction_keeps_iff_pulses (records : List Record) (hits : List HitRef) 
             (m = h.recordI ∧ j < r.length ∧ (h.left : Int) - le ≤ j ∧ (j : Int) < h.right + re)
             ∨ (IsNextFragment records spr m h.recordI ∧ (h.left : Int) - le ≤ (j : Int) - spr ∧ j < spr)
             ∨ (IsNextFragment records spr h.recordI m ∧ (j : Int) + spr < h.right + re ∧ j < spr)
-          (keep → d[j]? = r.data[j]?) ∧ (¬ keep → d[j]? = some 0) :=
-  cut_fragments_spec _ (fun j i => wf_isPrevFragment_iff hwf j i) hne (wf_noOrphan hwf) e
+          (keep → d[j]? = r.data[j]?) ∧ (¬ keep → d[j]? = some 0) := by
+  cases records with
+  | nil => intro m r hr; simp at hr
+  | cons r0 rs => exact cut_fragments_spec _ (fun j i => wf_isPrevFragment_iff hwf j i) (by simp) (wf_noOrphan hwf) e
 
 /-- **The composite clause: reducing to the neighbourhood of the hits that `find_hits` finds.**  For well-formed pulse
 arrays, `hits = find_hits(records, …)` and `out = cut_outside_hits(records, hits, le, re)`: sample `j` of record `m` survives
@@ -333,7 +358,7 @@ iff some record `k` has a maximal run `[l, r)` of samples at/above its threshold
 `l − le ≤ j < r + re`; or `m` holds the fragment before `k` in `k`'s pulse and `l − le ≤ j − samples_per_record`; or `m`
 holds the fragment after `k` and `j + samples_per_record < r + re`.  Every other sample is 0. -/
 theorem reduction_of_found_hits (records : List Record) (amp hon : ThrArg) (hits : List Hit) (le re : Int) (out : List Record)
-    (hne : records ≠ []) (hwf : wellFormedPulses records = true)
+    (hwf : wellFormedPulses records = true)
     (eh : findHits records amp hon = .ok hits) (e : cutOutsideHits records (hits.map Hit.ref) le re = .ok out) :
     ∀ m r, records[m]? = some r →
       ∃ d, out[m]? = some { r with data := d, reductionLevel := hitsOnly } ∧
@@ -346,7 +371,7 @@ theorem reduction_of_found_hits (records : List Record) (amp hon : ThrArg) (hits
              ∨ (IsNextFragment records spr k m ∧ (j : Int) + spr < rr + re ∧ j < spr))
           (keep → d[j]? = r.data[j]?) ∧ (¬ keep → d[j]? = some 0) := by
   intro m r hr
-  obtain ⟨d, hd, hj⟩ := reduction_keeps_iff_pulses records (hits.map Hit.ref) le re out hne hwf e m r hr
+  obtain ⟨d, hd, hj⟩ := reduction_keeps_iff_pulses records (hits.map Hit.ref) le re out hwf e m r hr
   refine ⟨d, hd, ?_⟩
   intro j hjl spr keep
   have hruns := (hits_are_maximal_runs records amp hon hits eh).1
@@ -511,7 +536,7 @@ theorem record_links_time_shift (T : Int) (rs : List Record) (hwf : wellFormedPu
 /-! ## non-vacuity: the hypotheses hold on concrete, non-trivial inputs -/
 
 /-- two fragments of one pulse in channel 0 (hit straddling the boundary) and a pulse in channel 1 -/
-def demo : List Record :=
+def demo_example : List Record :=
   [{ time := 10, length := 4, dt := 2, channel := 0, recordI := 0, pulseLength := 7, area := 0, reductionLevel := 0,
      baseline := ⟨1, 4⟩, baselineRms := ⟨1, 2⟩, ampBitShift := 0, data := [0, 3, 0, 2] },
    { time := 11, length := 3, dt := 1, channel := 1, recordI := 0, pulseLength := 3, area := 0, reductionLevel := 0,
@@ -519,67 +544,67 @@ def demo : List Record :=
    { time := 18, length := 3, dt := 2, channel := 0, recordI := 1, pulseLength := 7, area := 0, reductionLevel := 0,
      baseline := ⟨1, 4⟩, baselineRms := ⟨1, 2⟩, ampBitShift := 0, data := [2, 0, 0, 0] }]
 
-/-- `find_hits` returns on `demo` with a per-channel amplitude and a noise-scaled threshold: four hits -/
-example : (match findHits demo (.perCh [⟨2, 1⟩, ⟨1, 1⟩]) (.scalar ⟨3, 2⟩) with
+/-- `find_hits` returns on `demo_example` with a per-channel amplitude and a noise-scaled threshold: four hits -/
+example : (match findHits demo_example (.perCh [⟨2, 1⟩, ⟨1, 1⟩]) (.scalar ⟨3, 2⟩) with
            | .ok hs => hs.map (fun h => (h.recordI, h.left, h.right))
            | .error _ => []) = [(0, 1, 2), (0, 3, 4), (1, 1, 3), (2, 0, 1)] := by decide
 
-/-- the links of `demo`: record 2 continues record 0 -/
-example : (match recordLinks demo with
+/-- the links of `demo_example`: record 2 continues record 0 -/
+example : (match recordLinks demo_example with
            | .ok (prev, next) => (prev, next)
            | .error _ => ([], [])) = ([-1, -1, 0], [2, -1, -1]) := by decide
-example : noOrphanAtZero demo = true := by decide
+example : noOrphanAtZero demo_example = true := by decide
 
-/-- the pair hypothesis of `links_same_pulse_partial` holds for records 0 and 2 of `demo` (same pulse) and for a
+/-- the pair hypothesis of `links_same_pulse_partial` holds for records 0 and 2 of `demo_example` (same pulse) and for a
 record of another pulse that starts later -/
-example : SameOrDisjoint 4 demo[0] demo[2] ∧ NextInPulse 4 demo[0] demo[2] ∧
-    SameOrDisjoint 4 demo[0] { demo[0] with time := 40, recordI := 2 } := by
+example : SameOrDisjoint 4 demo_example[0] demo_example[2] ∧ NextInPulse 4 demo_example[0] demo_example[2] ∧
+    SameOrDisjoint 4 demo_example[0] { demo_example[0] with time := 40, recordI := 2 } := by
   refine ⟨by decide, ⟨by decide, by decide, by decide⟩, by decide⟩
 
-/-- the hypotheses of the totality theorems hold on `demo` -/
-example : (demo.all fun r => decide (0 ≤ r.channel ∧ r.length ≤ r.data.length)) = true ∧
-    ([(⟨0, 3, 4⟩ : HitRef), ⟨2, 0, 1⟩].all fun h => decide (h.recordI < demo.length ∧ h.left ≤ h.right)) = true := by decide
+/-- the hypotheses of the totality theorems hold on `demo_example` -/
+example : (demo_example.all fun r => decide (0 ≤ r.channel ∧ r.length ≤ r.data.length)) = true ∧
+    ([(⟨0, 3, 4⟩ : HitRef), ⟨2, 0, 1⟩].all fun h => decide (h.recordI < demo_example.length ∧ h.left ≤ h.right)) = true := by decide
 
-/-- `demo` is a well-formed pulse array (domain of `links_spec`, `reduction_keeps_iff_pulses`); the orphan witness is not -/
-example : wellFormedPulses demo = true ∧ wellFormedPulses orphanWitness = false := by decide
+/-- `demo_example` is a well-formed pulse array (domain of `links_spec`, `reduction_keeps_iff_pulses`); the orphan witness is not -/
+example : wellFormedPulses demo_example = true ∧ wellFormedPulses orphan_at_zero_witness = false := by decide
 
-/-- `baseline` returns on raw versions of `demo` (2 baseline samples, flipped), and the hypotheses of
+/-- `baseline` returns on raw versions of `demo_example` (2 baseline samples, flipped), and the hypotheses of
 `integrate_after_baseline` hold for a zero-padded record with baseline 5/2 -/
-example : (match baseline demo 2 true false 0 with
+example : (match baseline demo_example 2 true false 0 with
            | .ok out => out.map (fun o => (o.1.baseline, o.1.data))
            | .error _ => []) = [(⟨3, 2⟩, [1, -2, 1, -1]), (⟨5, 2⟩, [1, -2, -2, 0]), (⟨3, 2⟩, [-1, 1, 1, 0])] := by decide
 
-/-- the shift used by the harness, on `demo`: same intervals, hit times moved by `T0` -/
-example : (match findHits (demo.map (Record.shift 1700000000000000137)) (.perCh [⟨2, 1⟩, ⟨1, 1⟩]) (.scalar ⟨3, 2⟩) with
+/-- the shift used by the harness, on `demo_example`: same intervals, hit times moved by `T0` -/
+example : (match findHits (demo_example.map (Record.shift 1700000000000000137)) (.perCh [⟨2, 1⟩, ⟨1, 1⟩]) (.scalar ⟨3, 2⟩) with
            | .ok hs => hs.map (fun h => (h.recordI, h.left, h.right, h.time - 1700000000000000137))
            | .error _ => []) = [(0, 1, 2, 12), (0, 3, 4, 16), (1, 1, 3, 12), (2, 0, 1, 18)] := by decide
 
-/-- the reduction of `demo` returns, and keeps the sample before the straddling hit and the one after it -/
-example : (match cutOutsideHits demo [⟨0, 3, 4⟩, ⟨2, 0, 1⟩] 1 1 with
+/-- the reduction of `demo_example` returns, and keeps the sample before the straddling hit and the one after it -/
+example : (match cutOutsideHits demo_example [⟨0, 3, 4⟩, ⟨2, 0, 1⟩] 1 1 with
            | .ok out => out.map (·.data)
            | .error _ => []) = [[0, 0, 0, 2], [0, 0, 0, 0], [2, 0, 0, 0]] := by decide
 
 /-- the side condition of the single-record theorem holds for a 0th fragment at time 0 and for any record at time > 0 -/
-example : (demo.map fun r => decide (r.recordI = 0 ∨ r.time ≠ 0)) = [true, true, true] := by decide
+example : (demo_example.map fun r => decide (r.recordI = 0 ∨ r.time ≠ 0)) = [true, true, true] := by decide
 
-/-- a positive threshold (hypothesis of `hit_height_maxtime_partial`): record 1 of `demo` gets max(1, 2·3/2) = 3 -/
-example : (demo.map fun r => match thresholdOf demo (.perCh [⟨2, 1⟩, ⟨1, 1⟩]) (.scalar ⟨3, 2⟩) r with
+/-- a positive threshold (hypothesis of `hit_height_maxtime_partial`): record 1 of `demo_example` gets max(1, 2·3/2) = 3 -/
+example : (demo_example.map fun r => match thresholdOf demo_example (.perCh [⟨2, 1⟩, ⟨1, 1⟩]) (.scalar ⟨3, 2⟩) r with
            | .ok t => decide (0 < t.num)
            | .error _ => false) = [true, true, true] := by decide
 
 /-- a record with baseline fraction 1/2 and 5 samples in range: the half-way case 2.5 -/
-def halfWay : Record :=
+def half_way_example : Record :=
   { time := 0, length := 5, dt := 1, channel := 0, recordI := 0, pulseLength := 5, area := 0, reductionLevel := 0,
     baseline := ⟨1, 2⟩, baselineRms := ⟨0, 1⟩, ampBitShift := 0, data := [1, 1, 0, 0, 0, 0] }
 
 /-- a positive baseline denominator (hypothesis of `integrate_consistent`); 2 + 2.5 is rounded to the even 4 -/
-example : decide (0 < halfWay.baseline.den) = true ∧ (integrateOne halfWay).area = 4 := by decide
+example : decide (0 < half_way_example.baseline.den) = true ∧ (integrateOne half_way_example).area = 4 := by decide
 
 /-! (kept last: it needs no axiom at all) -/
 
 /-- **The full link statement is false for the code as it is**: the lone fragment is linked to itself. -/
 theorem links_next_counterexample :
-    (match recordLinks orphanWitness with
+    (match recordLinks orphan_at_zero_witness with
      | .ok (prev, next) => (prev, next)
      | .error _ => ([], [])) = ([-1], [0]) := by decide
 
